@@ -206,7 +206,8 @@ def fresh_state_before(s, seq):
     return prior[-1].response if prior else s.original
 
 
-@harness('A3', targets='kopf._cogs.clients.patching.patch_obj', props=['C08', 'C06', 'C03', 'C12', 'C13', 'C16', 'C02'],
+@harness('A3', targets='kopf._cogs.clients.patching.patch_obj', props=['C08', 'C06', 'C03', 'C12', 'C13', 'C16', 'C02', 'C20', 'C05', 'C07', 'C09', 'C11', 'C14'],
+         prop_clauses={'C20': ['merge_patches_complete'], 'C05': ['addressing', 'merge_patches_complete', 'returns_last_response'], 'C07': ['returns_last_response'], 'C09': ['addressing', 'merge_patches_complete'], 'C11': ['addressing', 'merge_patches_complete', 'returns_last_response'], 'C14': ['addressing', 'merge_patches_complete', 'returns_last_response']},
          clauses=['addressing', 'merge_patches_complete', 'merge_before_json_and_stop_on_failure',
                   'ops_of_all_fns_on_freshest_body', 'ops_routed_completely', 'version_test_guards_ops',
                   'conflict_carries_all_fns', 'success_drops_fns', 'not_found_is_silent', 'other_failures_escape',
@@ -396,7 +397,8 @@ def server_object(vc, tag=''):
     return {'metadata': md, 'spec': {}, 'status': {}}
 
 
-@harness('A2', targets='kopf._core.actions.application.patch_and_check', props=['C07', 'C08', 'C03'],
+@harness('A2', targets='kopf._core.actions.application.patch_and_check', props=['C07', 'C08', 'C03', 'C05', 'C06', 'C09', 'C10', 'C11', 'C12', 'C14', 'C02'],
+         prop_clauses={'C05': ['one_call_for_this_object', 'version_of_last_response', 'never_arriving_marker'], 'C06': ['one_call_for_this_object'], 'C09': ['one_call_for_this_object'], 'C10': ['inconsistencies_only_logged'], 'C11': ['one_call_for_this_object', 'version_of_last_response', 'inconsistencies_only_logged'], 'C12': ['one_call_for_this_object', 'inconsistencies_only_logged'], 'C14': ['one_call_for_this_object', 'version_of_last_response'], 'C02': ['one_call_for_this_object', 'version_of_last_response']},
          clauses=['empty_patch_no_request', 'one_call_for_this_object', 'version_of_last_response',
                   'never_arriving_marker', 'remaining_passed_through', 'inconsistencies_only_logged', 'patch_not_consumed'],
          canaries=['canary.always_the_servers_version', 'canary.always_calls'],
@@ -499,12 +501,13 @@ def A2(vc):
 DUMMY = ('metadata', 'annotations', 'kopf.zalando.org/touch-dummy')
 
 
-@harness('A1', targets='kopf._core.actions.application.apply', props=['C03', 'C08', 'C07', 'C11'],
+@harness('A1', targets='kopf._core.actions.application.apply', props=['C03', 'C08', 'C07', 'C11', 'C05', 'C06', 'C14', 'C15', 'C02', 'C04'],
+         prop_clauses={'C05': ['patched_means_no_sleep_no_touch', 'returns_last_version_and_first_remaining'], 'C06': ['no_lost_retrigger', 'touch_is_fresh_and_separate'], 'C14': ['patched_means_no_sleep_no_touch', 'returns_last_version_and_first_remaining'], 'C15': ['quiescent_iff_nothing_to_do', 'touch_only_after_full_sleep'], 'C02': ['patched_means_no_sleep_no_touch', 'returns_last_version_and_first_remaining'], 'C04': ['touch_is_fresh_and_separate']},
          clauses=['quiescent_iff_nothing_to_do', 'no_lost_retrigger', 'patched_means_no_sleep_no_touch',
                   'sleep_interruptible_and_not_longer_than_delay', 'touch_only_after_full_sleep', 'immediate_touch',
                   'touch_is_fresh_and_separate', 'returns_last_version_and_first_remaining', 'only_patching_errors_escape'],
          canaries=['canary.always_applied', 'canary.never_touches', 'canary.never_sleeps'],
-         clause_props={'no_lost_retrigger': ['C03'], 'quiescent_iff_nothing_to_do': ['C03'], 'immediate_touch': ['C03']},
+         clause_props={'no_lost_retrigger': ['C03', 'C06'], 'quiescent_iff_nothing_to_do': ['C03', 'C15'], 'immediate_touch': ['C03']},
          trusted=['application.patch_and_check by contract A2 (+A3): never modifies the patch; empty patch -> no request, (None, None); a patch with fields -> at least one PATCH request; a patch with fns only -> zero or more requests; returns (version | None, remaining | None) or raises an APIError',
                   'aiotime.sleep by contract T1 (pyvc.stubs.make_sleep)',
                   'progress_storage.touch by contract E5: writes `value` into the patch at the dummy field iff it differs from the value stored in the body'],
